@@ -1,0 +1,155 @@
+//! Mirror traits for the crate-private pipe endpoints, adapters in both directions,
+//! and runners for the real pipes.
+
+use crate::{log_utils, pipe};
+use async_trait::async_trait;
+use bytes::Bytes;
+use std::io;
+use std::time::Duration;
+
+/// Mirror of [`pipe::Source`]. `Ok(None)` stands for [`pipe::Data::Eof`].
+#[async_trait]
+pub trait VSource: Send {
+    async fn read(&mut self) -> io::Result<Option<Bytes>>;
+    fn consume(&mut self, size: usize) -> io::Result<()>;
+}
+
+/// Mirror of [`pipe::Sink`]
+#[async_trait]
+pub trait VSink: Send {
+    fn write(&mut self, data: Bytes) -> io::Result<Bytes>;
+    fn eof(&mut self) -> io::Result<()>;
+    async fn wait_writable(&mut self) -> io::Result<()>;
+    async fn flush(&mut self) -> io::Result<()>;
+}
+
+pub(crate) struct SourceFromV(pub Box<dyn VSource>, pub log_utils::IdChain<u64>);
+pub(crate) struct SinkFromV(pub Box<dyn VSink>, pub log_utils::IdChain<u64>);
+
+#[async_trait]
+impl pipe::Source for SourceFromV {
+    fn id(&self) -> log_utils::IdChain<u64> {
+        self.1.clone()
+    }
+
+    async fn read(&mut self) -> io::Result<pipe::Data> {
+        Ok(match self.0.read().await? {
+            Some(x) => pipe::Data::Chunk(x),
+            None => pipe::Data::Eof,
+        })
+    }
+
+    fn consume(&mut self, size: usize) -> io::Result<()> {
+        self.0.consume(size)
+    }
+}
+
+#[async_trait]
+impl pipe::Sink for SinkFromV {
+    fn id(&self) -> log_utils::IdChain<u64> {
+        self.1.clone()
+    }
+
+    fn write(&mut self, data: Bytes) -> io::Result<Bytes> {
+        self.0.write(data)
+    }
+
+    fn eof(&mut self) -> io::Result<()> {
+        self.0.eof()
+    }
+
+    async fn wait_writable(&mut self) -> io::Result<()> {
+        self.0.wait_writable().await
+    }
+
+    async fn flush(&mut self) -> io::Result<()> {
+        self.0.flush().await
+    }
+}
+
+/// A real crate source seen through the mirror trait
+pub struct RealSource(pub(crate) Box<dyn pipe::Source>);
+/// A real crate sink seen through the mirror trait
+pub struct RealSink(pub(crate) Box<dyn pipe::Sink>);
+
+#[async_trait]
+impl VSource for RealSource {
+    async fn read(&mut self) -> io::Result<Option<Bytes>> {
+        Ok(match self.0.read().await? {
+            pipe::Data::Chunk(x) => Some(x),
+            pipe::Data::Eof => None,
+        })
+    }
+
+    fn consume(&mut self, size: usize) -> io::Result<()> {
+        self.0.consume(size)
+    }
+}
+
+#[async_trait]
+impl VSink for RealSink {
+    fn write(&mut self, data: Bytes) -> io::Result<Bytes> {
+        self.0.write(data)
+    }
+
+    fn eof(&mut self) -> io::Result<()> {
+        self.0.eof()
+    }
+
+    async fn wait_writable(&mut self) -> io::Result<()> {
+        self.0.wait_writable().await
+    }
+
+    async fn flush(&mut self) -> io::Result<()> {
+        self.0.flush().await
+    }
+}
+
+impl RealSink {
+    /// The real provided method [`pipe::Sink::write_all`]
+    pub async fn write_all(&mut self, data: Bytes) -> io::Result<()> {
+        self.0.write_all(data).await
+    }
+}
+
+pub(crate) fn boxed_source(x: Box<dyn VSource>, id: u64) -> Box<dyn pipe::Source> {
+    Box::new(SourceFromV(x, test_id(id)))
+}
+
+pub(crate) fn boxed_sink(x: Box<dyn VSink>, id: u64) -> Box<dyn pipe::Sink> {
+    Box::new(SinkFromV(x, test_id(id)))
+}
+
+pub(crate) fn test_id(id: u64) -> log_utils::IdChain<u64> {
+    log_utils::IdChain::from(log_utils::IdItem::new(log_utils::CLIENT_ID_FMT, id))
+}
+
+/// Run the real [`pipe::DuplexPipe`] exactly as `Tunnel::on_tcp_connect_request` wires it:
+/// `client` = (downstream source, downstream sink), `peer` = (forwarder source, forwarder sink).
+/// `metrics(outgoing, n)` mirrors the metrics callback (`outgoing` = client-to-peer direction).
+pub async fn run_duplex_pipe<F>(
+    client: (Box<dyn VSource>, Box<dyn VSink>),
+    peer: (Box<dyn VSource>, Box<dyn VSink>),
+    timeout: Duration,
+    metrics: F,
+) -> io::Result<()>
+where
+    F: Fn(bool, usize) + Send + Clone,
+{
+    let (dstr_rx, dstr_tx) = client;
+    let (fwd_rx, fwd_tx) = peer;
+    let mut pipe = pipe::DuplexPipe::new(
+        (
+            pipe::SimplexDirection::Outgoing,
+            boxed_source(dstr_rx, 1),
+            boxed_sink(fwd_tx, 1),
+        ),
+        (
+            pipe::SimplexDirection::Incoming,
+            boxed_source(fwd_rx, 1),
+            boxed_sink(dstr_tx, 1),
+        ),
+        move |dir, n| metrics(dir == pipe::SimplexDirection::Outgoing, n),
+    );
+    pipe.exchange(timeout).await
+}
